@@ -20,9 +20,32 @@ ASSUMPTIONS = [
 N_NET = {'quick': 5400, 'thorough': 30000}
 
 
+def wide_range_network(rng):
+    """a stiff supply (milliohm inner impedance, i.e. a kiloampere Norton source) next to a nano-ampere source that feeds a
+    ten-megohm node: the small source is 1e12 ... 1e14 times smaller than the large one and still moves its node by a part in a
+    thousand - additivity has to hold for it as for any other source"""
+    z1 = rng.choice([1e-2, 2e-2, 5e-3])
+    v1 = rng.choice([1, -1]) * rng.uniform(2, 10)
+    i2 = rng.choice([1, -1]) * rng.uniform(1, 9) * rng.choice([1e-10, 1e-11])
+    big = lambda: rng.uniform(2, 9) * 1e6
+    br = [{'id': 'Vq', 'n1': 'a', 'n2': '0', 'ctor': 'voltage_source', 'V': v1, 'Z': z1},
+          {'id': 'R1', 'n1': 'a', 'n2': 'b', 'ctor': 'resistor', 'R': rng.uniform(1, 100)},
+          {'id': 'R2', 'n1': 'b', 'n2': '0', 'ctor': 'resistor', 'R': rng.uniform(1, 100)},
+          {'id': 'R4', 'n1': 'b', 'n2': 'c', 'ctor': 'resistor', 'R': big()},
+          {'id': 'R3', 'n1': 'c', 'n2': '0', 'ctor': 'resistor', 'R': big()},
+          {'id': 'Iq', 'n1': '0', 'n2': 'c', 'ctor': 'current_source', 'I': i2}]
+    if rng.random() < 0.5:
+        br[-1]['Y'] = 1 / big()
+    rng.shuffle(br)
+    return {'ref': '0', 'branches': br}
+
+
 def generate(tier, seed, shard, nshards):
     rng = random.Random(f'C04/{seed}/{shard}')
-    for _ in range(N_NET[tier] // nshards):
+    for k in range(N_NET[tier] // nshards):
+        if k % 12 == 11:
+            yield {'net': wide_range_network(rng), 'a': [rng.uniform(0.5, 2), rng.uniform(-1, 1)], 'split': rng.random(), 'wide': True}
+            continue
         d = G.random_network(rng, max_nodes=6, max_branches=11, n_sources=rng.choice([1, 2, 2, 3, 3, 4]))
         r = rng.uniform(0.1, 10)
         a = cmath.rect(r, rng.uniform(-math.pi, math.pi)) if rng.random() < 0.7 else complex(rng.choice([-1.0, 2.0, -0.5, 1j]))
@@ -73,9 +96,11 @@ def judge(case, ctx, prefix='C04'):
     desc = case['net']
     a = complex(*case['a'])
     refd = netsolve.reference(desc)
-    if refd is None or refd['kappa'] > netsolve.KAPPA_MAX:
+    if refd is None or refd['kappa'] > (1e11 if case.get('wide') else netsolve.KAPPA_MAX):
         ctx.count('set_aside_ill_posed_or_conditioned')
         return
+    if case.get('wide'):
+        ctx.count('wide_dynamic_range_networks')      # tolerance follows kappa (about 1e9 here): 1e-5 of the scale, the small source moves its node by 1e-3
     sources = [b['id'] for b in desc['branches'] if netdesc.is_source(b)]
     if not sources:
         return
